@@ -12,6 +12,7 @@ import (
 	"luasim/engines/cancelsweep"
 	"luasim/engines/cosched"
 	"luasim/engines/faultsweep"
+	"luasim/engines/iohist"
 	"luasim/engines/limitswarm"
 	"luasim/engines/streamload"
 )
@@ -22,6 +23,7 @@ var specs = map[string]*core.PropertySpec{
 	"C11": {Property: "C11", Engine: cancelsweep.New, QuickS: 60, ThoroughS: 1500, RunCapS: 300},
 	"C12": {Property: "C12", Engine: limitswarm.New, QuickS: 60, ThoroughS: 1500, RunCapS: 300},
 	"C06": {Property: "C06", Engine: cosched.New, QuickS: 60, ThoroughS: 1200, RunCapS: 300},
+	"C19": {Property: "C19", Engine: iohist.New, QuickS: 45, ThoroughS: 900, RunCapS: 120},
 	"C08": {Property: "C08", Engine: streamload.New, QuickS: 45, ThoroughS: 900, RunCapS: 20, HangViolation: true},
 }
 
